@@ -174,7 +174,7 @@ theorem setup_succ_true (cfg : Cfg) (fuel : Nat) (depth : Nat) (noRec : Bool) (v
       match resolve cfg.db cfg.keep s.already name version vexpr depth vro.length vro with
       | .none => .notFound s
       | .error => .raised s
-      | .found d reason => install (setup cfg fuel) cfg depth noRec vro d reason s := by
+      | .found d reason => install (setup cfg fuel) cfg depth noRec vro d reason (register cfg depth d reason s) := by
   cases h : resolve cfg.db cfg.keep s.already name version vexpr depth vro.length vro <;> simp [setup, h]
 
 /-- C01 clause (c), unsetup direction, for every database, fuel, flag combination and in-flux set -/
